@@ -342,7 +342,8 @@ class LibHarness(Harness):
             # ---- C01: front-matter kept verbatim (a restart answers with the document's own front-matter)
             for k, tok_ in sorted(texts.items()):
                 dm = [b['t'] for b in self.cur_docs[tok_][0] if b['k'] == 'Meta']
-                ctx.law('C01.front-matter-kept', of['metadata:' + k] == (dm[0] if dm else None), dict(info, note=k, graph_metadata=of['metadata:' + k], document=dm))
+                ctx.law('C01.front-matter-kept', of['metadata:' + k] == (dm[0] if dm else None), dict(info, note=k, graph_metadata=of['metadata:' + k], document=dm, graph='fresh'))
+                ctx.law('C01.front-matter-kept', oi['metadata:' + k] == (dm[0] if dm else None), dict(info, note=k, graph_metadata=oi['metadata:' + k], document=dm, graph='incremental'))
                 if dm: ctx.cover('front-matter')
             # ---- C05 / H5: backlinks vs independent scan of the documents (fresh graph = what a restart would answer)
             self.backlink_laws(ctx, of, texts, info, 'fresh')
@@ -479,6 +480,12 @@ class LibHarness(Harness):
                 v['replay_verdict'] = 'native: ids reused %s, arena %d -> %d' % (reused, len(pre), len(nodes_i))
                 return bool(reused) or len(nodes_i) < len(pre)
             return True
+        if law == 'C01.front-matter-kept':
+            k = v['info']['note']
+            which = oi if v['info'].get('graph') == 'incremental' else of
+            exp = v['info']['document'][0] if v['info']['document'] else None
+            v['replay_verdict'] = 'native front-matter of %s: %r, document has %r' % (k, which['metadata:' + k], exp)
+            return which['metadata:' + k] != exp
         if law.startswith('C05.'):
             tgt = v['info']['target']
             which = oi if v['info'].get('graph') == 'incremental' else of
